@@ -362,6 +362,58 @@ def rule_helpers(rep, inst):
                 rep.violates(R, rl, nm, where=d.where(f), scenario="bit %d of block %#x" % (bad[0], bad[1]), detail="returns %s" % bad[2])
             else:
                 rep.holds(R, rl, nm, where=d.where(f), detail="5 block patterns x %d bit positions" % W)
+    # assignment from another reference / from bool: the destination bit becomes the source's truth value, nothing else changes
+    for f in refs:
+        if f.get("name") != "operator=" or f.get("isImplicit"):
+            continue
+        ps = ir.params(f)
+        if len(ps) != 1:
+            continue
+        pname = ps[0].get("name")
+        from_ref = "xbitset_reference" in ir.qtype(ps[0])
+        flab = "operator=(%s)" % ("bool" if not from_ref else ("self_type&&" if "&&" in ir.wtype(ps[0]) else "const self_type&"))
+        if flab in done:
+            continue
+        done.add(flab)
+        body = ir.body(f)
+        calls = [n for n in ir.walk_expr(body) if this_call(n, {"assign"})]
+        stores = [n for n in ir.walk_expr(body) if n.get("kind") in ("BinaryOperator", "CompoundAssignOperator") and n.get("opcode", "").endswith("=")
+                  and n.get("opcode") not in ("==", "!=", "<=", ">=") and member_of_this(ir.ekids(n)[0], "m_block")]
+        if calls and not stores:
+            a = ir.sx(ir.ekids(calls[0])[1])
+            src_ok = any(s_ == ("ref", pname) for s_ in ir.subterms(a))
+            (rep.holds if src_ok else rep.violates)(R, rl, flab, where=d.where(calls[0]), **({"detail": "assign(<%s as bool>)" % pname} if src_ok else {"detail": "assign() is not given the source"}))
+            continue
+        if len(stores) != 1 or stores[0].get("opcode") != "=":
+            rep.inconclusive(R, rl, flab, where=d.where(f), detail="neither a call of assign(rhs) nor a single store to m_block")
+            continue
+        pts = list(range(W)) if W <= 16 else [0, 1, 7, 8, 31, 32, 33, W - 2, W - 1]
+        bad = None
+        try:
+            for p_ in pts:
+                for q_ in (pts if from_ref else [0]):
+                    for own in (0, full, 0xAAAAAAAAAAAAAAAA & full):
+                        for src in ((0, full, 1 << q_, full ^ (1 << q_)) if from_ref else (0, 1)):
+                            ctx = ceval.Ctx(d, {} if from_ref else {ps[0].get("id"): src}, {"m_block": own, "m_mask": 1 << p_})
+                            if from_ref:
+                                ctx.objects = {pname: {"m_block": src, "m_mask": 1 << q_}}
+                            got = ceval.conv(ceval.ev(ir.ekids(stores[0])[1], ctx), inst.btype)
+                            truth = bool(src & (1 << q_)) if from_ref else bool(src)
+                            want = (own | (1 << p_)) if truth else (own & ~(1 << p_) & full)
+                            if got != want:
+                                bad = (p_, q_, own, src, got, want)
+                                raise StopIteration
+        except StopIteration:
+            pass
+        except (ceval.Unknown, ceval.UB) as ex:
+            rep.inconclusive(R, rl, flab, where=d.where(stores[0]), detail=str(ex))
+            continue
+        if bad:
+            rep.violates(R, rl, flab, where=d.where(stores[0]), scenario="destination bit %d, source bit %d" % (bad[0], bad[1]),
+                         detail="with destination block %#x and source block %#x the store yields %#x, expected %#x (the destination bit must take the truth value of the SOURCE bit)" % (
+                             bad[2], bad[3], bad[4], bad[5]))
+        else:
+            rep.holds(R, rl, flab, where=d.where(stores[0]), detail="folded over %d x %d bit positions" % (len(pts), len(pts) if from_ref else 1))
     want_store = {"set": ("|=", lambda m: m), "reset": ("&=", lambda m: full ^ m), "flip": ("^=", lambda m: m)}
     for f in refs:
         nm = f.get("name")
@@ -1377,7 +1429,13 @@ def rule_cmp(rep, inst):
                 return ir.qtype(s).replace("const ", "") == inst.btype
             if not (blocky(l) or blocky(r)):
                 continue
-            a, b = trange.interval(l, env), trange.interval(r, env)
+            def rng_of(x):
+                try:
+                    v = ceval.ev(x, ceval.Ctx(d, {k_: v_[0] for k_, v_ in env.items()}))
+                    return (v, v)
+                except (ceval.Unknown, ceval.UB):
+                    return trange.interval(x, env)
+            a, b = rng_of(l), rng_of(r)
             if a is None or b is None:
                 continue
             op = n.get("opcode")
